@@ -1,7 +1,329 @@
 package eng
 
-import "verif/harness/h"
+import (
+	"fmt"
+	"strconv"
+	"strings"
+
+	"verif/harness/h"
+)
+
+const (
+	minNano = int64(-9223372036854775806)
+	maxNano = int64(9223372036854775806)
+)
+
+type key struct{ s, f int }
+
+// genState is what the generator tracks to keep cases mostly meaningful; it is an
+// approximation (the real file count is not known to it) — every op line is
+// legal in every state for both the model and the harness.
+type genState struct {
+	r      *h.Rand
+	prop   string
+	ops    []string
+	keys   []key   // focus keys
+	times  []int64 // focus timestamps
+	phase  int     // 0 idle, 1 begun, 2 written, 3 replaced, 4 cleared
+	nfiles int
+	hot    bool
+	wrote  bool
+}
+
+func (g *genState) emit(s string) { g.ops = append(g.ops, s) }
+
+func (g *genState) pickKey() key {
+	if g.r.Chance(0.9) {
+		return h.Pick(g.r, g.keys)
+	}
+	return key{g.r.Intn(len(SeriesKeys)), g.r.Intn(len(FieldNames))}
+}
+
+func (g *genState) pickTime() int64 {
+	if g.r.Chance(0.93) {
+		return h.Pick(g.r, g.times)
+	}
+	return h.Pick(g.r, []int64{minNano, maxNano, -1, 0, 1 << 40, -(1 << 40)})
+}
+
+func (g *genState) value(f int) int64 {
+	switch f {
+	case 4:
+		return int64(g.r.Intn(2))
+	default:
+		return int64(g.r.Intn(90))
+	}
+}
+
+func (g *genState) write() {
+	n := 1 + g.r.Intn(6)
+	var es []string
+	for i := 0; i < n; i++ {
+		k := g.pickKey()
+		es = append(es, fmt.Sprintf("%d:%d:%d:%d", k.s, k.f, g.pickTime(), g.value(k.f)))
+	}
+	g.emit("w " + strings.Join(es, ","))
+	g.hot, g.wrote = true, true
+}
+
+func (g *genState) rng() (int64, int64) {
+	switch g.r.Intn(5) {
+	case 0:
+		return minNano, maxNano
+	case 1:
+		t := g.pickTime()
+		return t, t
+	default:
+		a, b := g.pickTime(), g.pickTime()
+		if a > b && g.r.Chance(0.9) {
+			a, b = b, a
+		}
+		return a, b
+	}
+}
+
+func (g *genState) read() {
+	k := g.pickKey()
+	lo, hi := g.rng()
+	g.emit(fmt.Sprintf("r %d %d %d %d %s", k.s, k.f, lo, hi, h.B(g.r.Bool())))
+}
+
+func (g *genState) readAll() {
+	for _, k := range g.keys {
+		g.emit(fmt.Sprintf("r %d %d %d %d 1", k.s, k.f, minNano, maxNano))
+		if g.r.Bool() {
+			g.emit(fmt.Sprintf("r %d %d %d %d 0", k.s, k.f, minNano, maxNano))
+		}
+	}
+}
+
+func (g *genState) seriesList() string {
+	seen := map[int]bool{}
+	var out []string
+	n := 1 + g.r.Intn(2)
+	for i := 0; i < n; i++ {
+		s := g.pickKey().s
+		if !seen[s] {
+			seen[s] = true
+			out = append(out, strconv.Itoa(s))
+		}
+	}
+	return strings.Join(out, ",")
+}
+
+func (g *genState) delRange() (int64, int64) {
+	switch g.r.Intn(6) {
+	case 0:
+		return -9223372036854775808, 9223372036854775807
+	case 1:
+		return minNano, maxNano
+	}
+	return g.rng()
+}
+
+func (g *genState) del(op string) {
+	lo, hi := g.delRange()
+	g.emit(fmt.Sprintf("%s %s %d %d", op, g.seriesList(), lo, hi))
+}
+
+var kinds = []string{"lf", "ls", "full", "opt"}
+
+func (g *genState) group() (int, int, bool) {
+	n := g.nfiles
+	if n == 0 || g.r.Chance(0.03) {
+		return g.r.Intn(3), g.r.Intn(4), false // possibly invalid group
+	}
+	i := g.r.Intn(n)
+	j := i + g.r.Intn(n-i)
+	if g.r.Chance(0.5) {
+		j = n - 1
+		if g.r.Chance(0.5) {
+			i = 0
+		}
+	}
+	return i, j, true
+}
+
+func (g *genState) compact() {
+	i, j, ok := g.group()
+	g.emit(fmt.Sprintf("c %s %d %d", h.Pick(g.r, kinds), i, j))
+	if ok {
+		g.nfiles -= j - i
+	}
+}
+
+func (g *genState) snapshotDone() {
+	if g.hot {
+		g.nfiles++
+	}
+	g.hot = false
+}
+
+// one op of a C01/C03/C02 case
+func (g *genState) op() {
+	r := g.r
+	del := g.prop != "c01"
+	crash := g.prop == "c02"
+	x := r.Intn(100)
+	switch {
+	case x < 34:
+		g.write()
+	case x < 54:
+		g.read()
+	case x < 62: // whole snapshot
+		if g.phase >= 3 {
+			g.read()
+			return
+		}
+		g.emit("snap")
+		if g.phase == 0 {
+			g.snapshotDone()
+		}
+	case x < 74: // stepped snapshot
+		if g.phase == 0 {
+			g.emit("sb")
+			g.phase = 1
+			g.snapshotDoneAtBegin()
+		} else {
+			old := g.phase
+			steps := map[int]string{2: "sw", 3: "sr", 4: "sc", 5: "sx"}
+			to := old + 1
+			if r.Chance(0.3) {
+				to = old + 1 + r.Intn(5-old)
+			}
+			g.emit(steps[to])
+			if to == 5 {
+				g.phase = 0
+			} else {
+				g.phase = to
+			}
+		}
+	case x < 84:
+		g.compact()
+	case x < 87:
+		g.emit("files")
+	default:
+		switch {
+		case del && g.phase < 3 && x < 96:
+			g.del("d")
+		case crash && x >= 96:
+			g.crashOp()
+		default:
+			g.read()
+		}
+	}
+}
+
+func (g *genState) snapshotDoneAtBegin() {
+	// the hot store moves to the snapshot store at sb; the file appears at sr
+	if g.hot {
+		g.nfiles++
+	}
+	g.hot = false
+}
+
+func (g *genState) crashOp() {
+	r := g.r
+	switch x := r.Intn(10); {
+	case x < 3:
+		g.emit("crash clean")
+	case x < 6:
+		g.emit(fmt.Sprintf("crash %d", 1+r.Intn(999)))
+	case x < 7:
+		if g.phase == 0 {
+			g.emit("reopen")
+		} else {
+			g.emit("crash clean")
+		}
+	case x < 9:
+		i, j, _ := g.group()
+		pt := h.Pick(r, []string{"compact.afterWriteFiles", "replace.afterRename", "replace.afterRemoveOld"})
+		g.emit(fmt.Sprintf("ccrash %s %d %d %s %d", h.Pick(r, kinds), i, j, pt, 1+r.Intn(3)))
+	default:
+		if g.phase < 3 {
+			g.del("dcrash")
+		} else {
+			g.emit("crash clean")
+		}
+	}
+	g.phase = 0
+	g.hot = g.wrote
+	g.readAll()
+}
+
+func newGenState(r *h.Rand, prop string) *genState {
+	g := &genState{r: r, prop: prop}
+	nk := 1 + r.Intn(3)
+	for i := 0; i < nk; i++ {
+		g.keys = append(g.keys, key{r.Intn(len(SeriesKeys)), r.Intn(len(FieldNames))})
+	}
+	if r.Chance(0.4) { // two fields of one series: a series delete hits both
+		g.keys = append(g.keys, key{g.keys[0].s, r.Intn(len(FieldNames))})
+	}
+	nt := 2 + r.Intn(7)
+	base := int64(r.Intn(5))
+	for i := 0; i < nt; i++ {
+		g.times = append(g.times, base+int64(r.Intn(12)))
+	}
+	if r.Chance(0.15) {
+		g.times = append(g.times, minNano, maxNano)
+	}
+	return g
+}
 
 // Gen emits the cases of one property ("c01", "c02", "c03").
 func Gen(r *h.Rand, tier string, prop string, emit func([]string)) {
+	n, maxOps := 600, 40
+	if tier == "thorough" {
+		n, maxOps = 12000, 70
+	}
+	if prop == "c02" {
+		n = n * 2 / 3
+	}
+	for _, c := range fixedCases(prop) {
+		emit(c)
+	}
+	for i := 0; i < n; i++ {
+		g := newGenState(r, prop)
+		nops := 6 + r.Intn(maxOps-6)
+		for len(g.ops) < nops {
+			g.op()
+		}
+		if g.phase != 0 && r.Chance(0.7) {
+			g.emit("sx")
+		}
+		g.readAll()
+		emit(g.ops)
+	}
+}
+
+// fixedCases are the hand-written histories every run starts with.
+func fixedCases(prop string) [][]string {
+	all := fmt.Sprintf("%d %d", minNano, maxNano)
+	cs := [][]string{
+		{"w 0:0:5:7,0:0:3:2,0:0:5:8", "r 0 0 " + all + " 1", "r 0 0 " + all + " 0", "snap", "files", "w 0:0:5:9,0:1:4:4",
+			"r 0 0 0 10 1", "snap", "c lf 0 1", "r 0 0 0 10 1", "r 0 1 0 10 0"},
+		{"w 1:2:1:1", "sb", "w 1:2:1:2,1:2:2:5", "r 1 2 " + all + " 1", "sw", "r 1 2 " + all + " 1", "sr", "r 1 2 " + all + " 0",
+			"w 1:2:2:6", "sc", "r 1 2 " + all + " 1", "sx", "r 1 2 " + all + " 1", "snap", "c full 0 1", "r 1 2 " + all + " 1"},
+	}
+	if prop != "c01" {
+		cs = append(cs,
+			// DESIGN §6 F1: delete inside the snapshot window
+			[]string{"w 0:0:100:1", "sb", "d 0 100 100", "r 0 0 0 1000 1", "sx", "r 0 0 0 1000 1"},
+			[]string{"w 0:0:1:1,0:0:2:2", "snap", "w 0:0:3:3", "d 0 2 3", "r 0 0 " + all + " 1", "snap", "c ls 0 0", "r 0 0 " + all + " 1",
+				"w 0:0:2:9", "r 0 0 " + all + " 1"},
+		)
+	}
+	if prop == "c02" {
+		cs = append(cs,
+			[]string{"w 0:0:1:1", "w 0:0:2:2", "crash 500", "r 0 0 0 1000 1", "w 0:0:3:3", "r 0 0 0 1000 1", "crash clean", "r 0 0 0 1000 1"},
+			[]string{"w 0:0:1:1", "snap", "w 0:0:1:2", "snap", "ccrash full 0 1 replace.afterRename 1", "r 0 0 0 1000 1", "files"},
+			[]string{"w 0:0:1:1", "snap", "w 0:0:1:2", "snap", "ccrash lf 0 1 replace.afterRemoveOld 1", "r 0 0 0 1000 1", "files"},
+			[]string{"w 0:0:1:1", "sb", "sr", "crash clean", "r 0 0 0 1000 1", "files"},
+			[]string{"w 0:0:1:1", "sb", "sc", "crash clean", "r 0 0 0 1000 1", "w 0:0:2:2", "reopen", "r 0 0 0 1000 1"},
+			[]string{"w 0:0:1:1", "snap", "w 0:0:2:2", "dcrash 0 1 2", "r 0 0 0 1000 1"},
+			[]string{"w 0:0:1:1", "w 0:0:2:2", "d 0 1 1", "crash 300", "r 0 0 0 1000 1"},
+		)
+	}
+	return cs
 }
